@@ -250,6 +250,15 @@ def cases(tier, rng):
                     for gz, nl, lazy in (itertools.product((False, True), (True, False), (True, False)) if big else [(rng.random() < 0.5, True, rng.random() < 0.5), (False, False, False)]):
                         yield {"op": "entries", "fmt": fmt, "header": header, "ents": ents, "gz": gz, "nl": nl, "crlf": False, "lazy": lazy, "k": k,
                                "longest": max(len(e) for e in ents) + 2}
+    # --- the chunks joined as tables (np.concatenate), after a field of only some of them was looked at
+    for fmt in fmts:
+        for n in ((3, 5, 8) if big else (5,)):
+            ents, header = make_entries(fmt, n, [2, 5], rng)
+            bounds = list(itertools.accumulate(len(e) for e in ents))
+            for k in (sorted(set(b + 1 for b in bounds[:-1])) if big else rng.sample(sorted(set(b + 1 for b in bounds[:-1])), 2)):
+                for touched in ([], [0], [1], [0, 2], [0, 1, 2, 3, 4, 5, 6, 7]):
+                    yield {"op": "entries", "fmt": fmt, "header": header, "ents": ents, "gz": rng.random() < 0.3, "nl": rng.random() < 0.7, "crlf": False,
+                           "lazy": rng.random() < 0.7, "k": k, "longest": max(len(e) for e in ents) + 2, "npcat": touched, "touch": rng.randrange(6)}
     # --- files larger than one chunk at the chunk sizes people actually use (1 MiB, the 5,000,000-byte default, 8 MiB, 16 MiB):
     #     buffers of earlier chunks must still be intact when they are looked at after later reads. Files above 4 MB are compared by
     #     a streaming checksum per column (data bytes and row lengths) instead of Python rows.
@@ -476,6 +485,23 @@ def impl(c):
                     chunks = list(f.read_chunks(min_chunk_size=c["k"]))
                     for chunk in chunks:
                         rows += table_rows(chunk)
+                elif c.get("npcat") is not None:
+                    # the chunks joined with np.concatenate (as tables) instead of row by row — after a field of SOME of the chunks
+                    # was looked at (progress messages do that): the joined table must still hold every entry of every column
+                    chunks = list(f.read_chunks(min_chunk_size=c["k"]))
+                    for i in c["npcat"]:
+                        if i < len(chunks):
+                            fld = dataclasses.fields(chunks[i])
+                            getattr(chunks[i], fld[c["touch"] % len(fld)].name)
+                    try:
+                        joined = np.concatenate(chunks) if len(chunks) > 1 else (chunks[0] if chunks else None)
+                    except Exception:
+                        joined = None          # tables of this format cannot be joined: fall back to the row-wise comparison
+                    if joined is None:
+                        for chunk in chunks:
+                            rows += table_rows(chunk)
+                    else:
+                        rows = table_rows(joined)
                 elif c.get("maxk"):
                     for chunk in f.read_chunks(min_chunk_size=c["k"], max_chunk_size=c["maxk"]):
                         rows += table_rows(chunk)
@@ -546,6 +572,8 @@ def tags(c, got):
             t.append("max_chunk_size")
         if c.get("keep"):
             t.append("chunks-kept-alive")
+        if c.get("npcat") is not None:
+            t.append("chunks-joined-with-np.concatenate")
     else:
         L = len(c["file"])
         t += ["mode:" + c.get("mode", "-"), "final-newline" if (c["file"] and c["file"][-1] == 10) else "no-final-newline"]
